@@ -272,7 +272,7 @@ def _case(draw):
         kind = draw(st.sampled_from(["req", "req", "req", "resp"]))
         sp = {
             "kind": kind,
-            "t": draw(st.sampled_from([0.0, 0.0, 0.0, 0.0, 0.001, 0.2, 0.5, 1.0])),
+            "t": draw(st.sampled_from([0.0, 0.0, 0.0, 0.0, 0.001, 0.2, 0.5, 1.0, 0.0, 0.0, 0.001, 0.2, 0.5, 1.0, 5.0, 8.0])),
             "remote": draw(st.sampled_from([0, 0, 0, 0, 0, 1, 2])),
             "con": draw(st.sampled_from([True, True, True, True, False])) if kind == "req" else True,
             "at": draw(st.sampled_from([0.5, 1.0])),
